@@ -63,6 +63,7 @@ type entry struct {
 	Seq    int64
 	Metric int
 	Tagv   int
+	Bad    bool // the payload is not a snappy block: Replica cannot decompress it
 }
 
 func metricName(m int) string { return "m" + strconv.Itoa(m) }
@@ -184,6 +185,11 @@ func installGlobals() {
 			if f := tableHook; f != nil {
 				f(fileName)
 			}
+			if f := tableFail; f != nil {
+				if err := f(fileName); err != nil {
+					return nil, err
+				}
+			}
 			return bufioutil.NewBufioStreamWriter(fileName)
 		})
 	})
@@ -191,6 +197,9 @@ func installGlobals() {
 
 // tableHook is called before every table (sst) file creation of any kv store.
 var tableHook func(fileName string)
+
+// tableFail may make the creation of a table file fail (a file-system error inside a kv flush).
+var tableFail func(fileName string) error
 
 func setConfig(root string) {
 	cfg := config.NewDefaultStorageBase()
@@ -395,6 +404,9 @@ func (n *node) pos() positions {
 // ---------------------------------------------------------------- writes
 
 func (e entry) message(famTime int64) ([]byte, error) {
+	if e.Bad {
+		return []byte("\x01\x02 this is not a snappy stream \xfe\xff"), nil
+	}
 	cv := metric.NewProtoConverter(models.NewDefaultLimits())
 	blk, err := cv.MarshalProtoMetricV1(&protoMetricsV1.Metric{
 		Namespace: nsName, Name: metricName(e.Metric), Timestamp: famTime + e.Seq*interval,
@@ -468,8 +480,10 @@ func (n *node) applyNext(e entry) error {
 	if !n.pending() {
 		return errors.New("nothing pending")
 	}
-	if err := n.preregister(e); err != nil {
-		return err
+	if !e.Bad {
+		if err := n.preregister(e); err != nil {
+			return err
+		}
 	}
 	if !replica.VerifReplicaOnce(n.part, leader) {
 		return errors.New("no local replicator")
